@@ -1,11 +1,78 @@
 import SigModel.Driver.Loop
+import SigModel.Spec.Mcu
 
-/-! Driver for C09 — stub (no model yet). -/
+/-! Driver for C09: model of clientsession.go's publisher / subscriber handling
+(`Model/Mcu.lean`, configuration read from the source) and the judge of
+`Spec/Mcu.lean` on the implementation's answers.
+
+Requests carry a label chosen by the generator; the driver keeps the map from
+labels to the model's object ids, the protocol only ever shows labels. -/
 namespace SigModel.Driver.C09
+open SigModel.Proto SigModel.Mcu
+
+/-- Number of sessions of a harness case. -/
+def nSessions : Nat := 3
+
+def parsePerms (tok : String) : Perms :=
+  let cs := tok.toList
+  { media := cs.contains 'm', audio := cs.contains 'a', video := cs.contains 'v', screen := cs.contains 's' }
+
+def parseOutcome (tok : String) : Option Outcome :=
+  if tok = "ok" then some .ok else if tok = "fail" then some .fail
+  else if tok = "timeout" then some .timeout else none
+
+/-- A stream type token: only the ones the media server accepts exist in the model. -/
+def parseStreamTok (tok : String) : Option Stream :=
+  if SigModel.Generated.Mcu.publishableStreams.contains tok then parseStream tok else none
+
+def sessTok (tok : String) : Option Nat := do
+  let n ← toNat? tok
+  if n < nSessions then some n else none
 
 structure St where
-  dummy : Unit := ()
+  model : State := State.init
+  judge : Judge := {}
+  /-- label ↦ model object id -/
+  labels : List (Nat × Nat) := []
 
-def step (st : St) (_op _impl : List String) : St × String × String := (st, "bad-op", "na")
+def St.idOf (st : St) (l : Nat) : Option Nat := (st.labels.find? (fun p => p.1 == l)).map (·.2)
+def St.labelOf (st : St) (k : Nat) : Nat :=
+  match st.labels.find? (fun p => p.2 == k) with
+  | some p => p.1
+  | none => 0
+
+/-- Parsed op and its label (0 where there is none). -/
+def parseOp (st : St) : List String → Option (Op × Nat)
+  | ["join", s, r] => do some (.join (← sessTok s) (← toNat? r), 0)
+  | ["leave", s] => do some (.leave (← sessTok s), 0)
+  | ["incall", s, b] => do some (.incall (← sessTok s) (b == "1"), 0)
+  | ["perms", s, p] => do some (.perms (← sessTok s) (parsePerms p), 0)
+  | ["offer", l, s, t, m] => do some (.offer (← sessTok s) (parseStreamTok t) (parseMedia m), ← toNat? l)
+  | ["request", l, s, p, t] => do some (.request (← sessTok s) (← sessTok p) (parseStreamTok t), ← toNat? l)
+  | ["sendoffer", l, p, s, t] => do some (.sendoffer (← sessTok p) (← sessTok s) (parseStreamTok t), ← toNat? l)
+  | ["end", l, o] => do
+    let l ← toNat? l
+    let o ← parseOutcome o
+    -- an unknown label is answered `bad` by the model (no pending call has id 0)
+    some (.finish ((st.idOf l).getD 0) o, l)
+  | ["close", s] => do some (.close (← sessTok s), 0)
+  | ["state"] => some (.state, 0)
+  | _ => none
+
+def step (st : St) (op impl : List String) : St × String × String :=
+  match parseOp st op with
+  | none => (st, "bad-op", "na")
+  | some (o, label) =>
+    let (m', out) := exec codeCfg st.model o
+    -- a request that reached the media server got the id `nextId`
+    let labels := if out == s!"pending {st.model.nextId}" then (label, st.model.nextId) :: st.labels else st.labels
+    let st1 : St := { st with model := m', labels := labels }
+    let out := match o, out.splitOn " " with
+      | .state, _ => stateOutput m' st1.labelOf
+      | _, ["pending", _] => "pending"
+      | _, ["existing", k] => s!"existing {st1.labelOf (k.toNat?.getD 0)}"
+      | _, _ => out
+    let (j', v) := if impl.isEmpty then (st.judge, "na") else st.judge.observe o label impl
+    ({ st1 with judge := j' }, out, v)
 
 end SigModel.Driver.C09
